@@ -175,7 +175,7 @@ def _k3_job(job):
     sym = {}
     ALPHA = ['a', 'b', 'c'][:max(2, K)]
     def entry(M):
-        lib = deep_clone(lib0)
+        lib = deep_clone(lib0) if not split else None
         ids = {n: models.str_term(M, Str(n)) for n in ALPHA}
         mapping = {}
         for i in range(K):
@@ -239,11 +239,16 @@ def k3(ctx, kr):
 
 # ---------------------------------------------------------------------------------------------- K4 two declarations with one name are diagnosed by resolve_types
 def _k4_job(job):
-    kinds, = job
+    kinds = job[0]; split = len(job) > 1 and job[1]
     ctx = _CTX; part = Part()
     P = ctx.program()
     K = len(kinds)
-    lib0, text = TC.build(ctx, [_decl_text(kinds, ['nm%d' % i for i in range(K)])])
+    lib0 = None
+    if split:
+        # two files, one declaration each, equal in everything but (possibly) the name
+        libs0 = [TC.build(ctx, [DECL[k] % {'n': 'nm%d' % i, 'i': 0, 'k': 2}])[0] for i, k in enumerate(kinds)]
+    else:
+        lib0, text = TC.build(ctx, [_decl_text(kinds, ['nm%d' % i for i in range(K)])])
     key = P.find_fn('ironplc-analyzer', 'stages::resolve_types')
     M = Machine(P, max_steps=100_000_000); M.toposort_deterministic = True
     sym = {}; ALPHA = ['a', 'b']
@@ -254,6 +259,7 @@ def _k4_job(job):
         for i in range(K):
             v = M.fresh_bv('name_%d' % i, 32); M.assume(z3.Or([v == ids[n] for n in ALPHA])); sym[i] = (v, ids)
             mapping['nm%d' % i] = (lambda v: (lambda orig: TC.ident_sym(v, orig)))(v)
+        if split: return M.call_fn(key, [Ref(Cell(VecV([Ref(Cell(LC.subst_names(deep_clone(l), mapping))) for l in libs0])))])
         lib = LC.subst_names(lib, mapping)
         return M.call_fn(key, [Ref(Cell(VecV([Ref(Cell(lib))])))])
     def on_path(M, pr):
@@ -271,8 +277,10 @@ def _k4_job(job):
             for i in range(K):
                 v, ids = sym[i]; val = m.eval(v, True).as_long(); names.append([n for n in ALPHA if ids[n].as_long() == val][0])
             src = _decl_text(kinds, names); classes = '+'.join(sorted(CLASS[k] for k in kinds))
-            if pr.panic: part.add('C03/K4/panic/' + '+'.join(kinds), 'resolve_types panics: ' + pr.panic.msg[:60], {'source': src}, ('samename', (src,)))
-            else: part.add('C03/K4/same-name-not-diagnosed/%s' % '+'.join(sorted(kinds)), 'a %s and a %s declared with one name (%s) pass type resolution without any diagnostic' % (kinds[0], kinds[1], names[0]), {'kinds': list(kinds), 'source': src}, ('samename', (src,)))
+            if split: src = [DECL[k] % {'n': names[i], 'i': 0, 'k': 2} for i, k in enumerate(kinds)]
+            tag = '/two-equal-files' if split else ''
+            if pr.panic: part.add('C03/K4/panic/' + '+'.join(kinds) + tag, 'resolve_types panics: ' + pr.panic.msg[:60], {'source': src}, ('samename', (src,)))
+            else: part.add('C03/K4/same-name-not-diagnosed/%s%s' % ('+'.join(sorted(kinds)), tag), 'a %s and a %s declared with one name (%s)%s pass type resolution without any diagnostic' % (kinds[0], kinds[1], names[0], ', each in a file of its own and otherwise equal,' if split else ''), {'kinds': list(kinds), 'source': src}, ('samename', (src,)))
         if len(part.samples) < 1: part.samples.append({'kinds': list(kinds), 'result': 'Err%s' % codes if is_err else 'Ok'})
     M.explore(entry, on_path)
     part.queries += M.stats['smt']; part.encoded = set(M.encoded); part.models = set(M.models_used)
@@ -281,7 +289,7 @@ def _k4_job(job):
 @replay_factory('samename')
 def _replay_samename(src):
     def rp(ctx):
-        r = ctx.replay({'cmd': 'analyze', 'sources': [src]})
+        r = ctx.replay({'cmd': 'analyze', 'sources': [src] if isinstance(src, str) else list(src)})
         if 'panic' in r: return True, r
         if 'parse_error' in r: return None, r
         return bool(r.get('ok')), {'source': src, 'analyze_ok': r.get('ok'), 'codes': [d['code'] for d in r.get('diagnostics', [])]}
@@ -293,7 +301,9 @@ def k4(ctx, kr):
     _CTX = ctx
     pairs = [('enum', 'fb'), ('struct', 'fb'), ('fb', 'enum'), ('enum', 'function'), ('enum', 'program'), ('fb', 'function'), ('fb', 'fb'), ('enum', 'struct'), ('simple', 'enum'), ('simple', 'fb')]
     kr.bounds = 'pairs of declarations %s with names symbolic over a 2-letter alphabet, through the real stages::resolve_types (all four transforms)' % pairs
-    for part in par_map(_k4_job, [(p_,) for p_ in pairs]): merge_part(kr, part)
+    twins = [('fb', 'fb'), ('enum', 'enum'), ('struct', 'struct'), ('function', 'function'), ('program', 'program'), ('simple', 'simple')]
+    kr.bounds += '; and two files holding one declaration each, equal but for the symbolic name: ' + str(twins)
+    for part in par_map(_k4_job, [(p_,) for p_ in pairs] + [(p_, True) for p_ in twins]): merge_part(kr, part)
     P = ctx.program()
     kr.functions = fn_paths(P, getattr(kr, '_enc', set()))[:80]
     kr.assumptions = ['petgraph toposort / Dfs by contract (deterministic order: the verdict does not depend on it, C06-K2)']
